@@ -37,7 +37,8 @@ CFGS = {
 MDROP = ('res', 'committed', 'forgot', 'cache', 'pc', 'cur', 'upd')
 # name: (cfg file, block_size [txLimit = block_size*2 = the spec's Limit])
 MEM = {'g': ('MC_Mempool_g.cfg', 0), 'q': ('MC_Mempool_q.cfg', 1), 'l': ('MC_Mempool_l.cfg', 0), 'pre': ('MC_Mempool_pre.cfg', 0),
-       'prefix_push': ('MC_Mempool_prefix_push.cfg', 0), 'prefix_atomic': ('MC_Mempool_prefix_atomic.cfg', 0)}
+       'prefix_push': ('MC_Mempool_prefix_push.cfg', 0), 'prefix_atomic': ('MC_Mempool_prefix_atomic.cfg', 0),
+       'prefix_latecache': ('MC_Mempool_prefix_latecache.cfg', 0)}
 
 
 def nontrivial(tr):
@@ -170,7 +171,7 @@ def run(ctx, replay=None):
         traces.append(from_tlc_trace(r.trace, CFGS['pre'][1], 'witness-txpool-pre'))
     else:
         ctx.inconclusive.append('spec sensitivity: TxPool pre-repair configuration produced no counterexample')
-    for name in ('pre', 'prefix_push', 'prefix_atomic'):
+    for name in ('pre', 'prefix_push', 'prefix_atomic', 'prefix_latecache'):
         r = tlc.run(SPEC, 'MC_Mempool.tla', MEM[name][0], workers=1, timeout=300)
         wit['mempool_' + name] = r.violation
         if r.violation and r.trace:
@@ -189,6 +190,9 @@ def run(ctx, replay=None):
     traces.append(hand('mempool-race-3', mp, [('RcvCheck', ['p1', 'a', 'pass']), ('RcvCheck', ['p2', 'b', 'pass']), ('RcvCheck', ['p3', 'a', 'pass']),
                                               ('RcvCheck', ['p4', 'a', 'pass']), ('RcvPush', ['p3', 'ok']), ('RcvPush', ['p2', 'ok']),
                                               ('RcvPush', ['p1', 'exist']), ('RcvPush', ['p4', 'exist']), ('Reap', [-1])]))
+    # the late copy of a transaction of the block being committed: parked after its seen-check, it asks for the pool lock
+    # while Update holds it (steered through the registered filter alone, no hook); T last of 50000 block transactions
+    traces.append(hand('mempool-late-copy-during-update', mp, [('LateCopyRace', [50000, 8])]))
     traces.append(hand('mempool-push-update-append', dict(mp, split=True),
                        [('RcvCheck', ['p1', 'a', 'pass']), ('RcvPush', ['p1', 'ok']), ('UpdCache', [['a']]), ('UpdRefresh', []),
                         ('RcvAppend', ['p1']), ('Reap', [-1])]))
